@@ -206,6 +206,8 @@ def run(ctx):
                         same = True     # ill-conditioned ratio over a ~zero mean (instances of finding C16-F1): only definedness compared
                     elif f in ("pnrmse", "pnrmse_adj") and abs(float(got["iqr"])) <= 1e-3:
                         same = True
+                    elif f == "autocorr" and (float(got["mse"]) - float(got["mbe"]) ** 2) <= 1e-10 * max(1.0, float(got["mse"])):
+                        same = True     # (almost) constant residuals: the lag-1 autocorrelation is 0/0, both sides return rounding noise
                     else:
                         a, b = unhex(lv), float(g)
                         same = close(a, b, 1e-7) or (f in ("r_squared", "autocorr") and (a != a or b != b or abs(a - b) < 1e-6)) \
